@@ -232,9 +232,31 @@ func decideOnce(raw json.RawMessage, trace bool) (res map[string]interface{}) {
 	return decideValue(&dm, trace)
 }
 
+type tracingFunc struct {
+	inner model.PreferenceFunction
+	got   *[]interface{}
+}
+
+func (t *tracingFunc) Identifier() string                            { return t.inner.Identifier() }
+func (t *tracingFunc) MethodParameters() interface{}                 { return t.inner.MethodParameters() }
+func (t *tracingFunc) ParseParams(dm *model.DecisionMaker) interface{} { return t.inner.ParseParams(dm) }
+func (t *tracingFunc) Evaluate(dmp *model.DecisionMakingParams) *model.AlternativesRanking {
+	*t.got = append(*t.got, dump(dmp))
+	return t.inner.Evaluate(dmp)
+}
+
 func decideValue(dm *model.DecisionMaker, trace bool) (res map[string]interface{}) {
 	var stages []*stageSnap
+	var evalInputs []interface{}
 	bm := &biases
+	fs := funcs
+	if trace {
+		wrapped := make([]model.PreferenceFunction, len(funcs.Functions))
+		for i, f := range funcs.Functions {
+			wrapped[i] = &tracingFunc{inner: f, got: &evalInputs}
+		}
+		fs = model.PreferenceFunctions{Functions: wrapped}
+	}
 	if trace {
 		mu := &sync.Mutex{}
 		traced := make(model.BiasMap, len(biases))
@@ -254,10 +276,13 @@ func decideValue(dm *model.DecisionMaker, trace bool) (res map[string]interface{
 			if trace {
 				res["stages"] = finishStages(stages)
 				res["requestUnchanged"] = reflect.DeepEqual(reqBefore, dump(dm))
+				if len(evalInputs) > 0 {
+					res["evalInput"] = evalInputs[0]
+				}
 			}
 		}
 	}()
-	decision := dm.MakeDecision(funcs, biasListeners, bm, utils.RandomBasedSeedValueGenerator)
+	decision := dm.MakeDecision(fs, biasListeners, bm, utils.RandomBasedSeedValueGenerator)
 	b, err := json.Marshal(decision)
 	if err != nil {
 		return map[string]interface{}{"ok": false, "err": "marshal: " + err.Error(), "kind": "marshal"}
@@ -267,6 +292,9 @@ func decideValue(dm *model.DecisionMaker, trace bool) (res map[string]interface{
 		res["stages"] = finishStages(stages)
 		res["requestUnchanged"] = reflect.DeepEqual(reqBefore, dump(dm))
 		res["resultDump"] = dump(decision.Result)
+		if len(evalInputs) > 0 {
+			res["evalInput"] = evalInputs[0]
+		}
 	}
 	return res
 }
